@@ -523,8 +523,6 @@ Qed.
 
 (* ------------------------------------------------------------------ the root sum against ALL samples
    (the statement of C16 says "the sum of the profile's sample values") *)
-Definition full_weight (k : nat) (ss : list sample) : Z := sumZ (map (fun s => nth k (s_values s) 0) ss).
-
 Lemma weight_full k ss : (forall s, In s ss -> s_stack s <> []) -> weight k ss = full_weight k ss.
 Proof.
   induction ss as [|s ss IH]; intros H; [reflexivity|].
@@ -564,21 +562,31 @@ Proof.
   intros s H. cbn in H. repeat (destruct H as [<-|H]; [discriminate|]). contradiction.
 Qed.
 
-Lemma root_sum_refuted_proof : exists (h : N -> N -> N) (nt : nat) (ss : list sample) (k : nat),
-  (k < nt)%nat /\ parent_determined h (triples h ss) /\
-  wrap64 (child_tot k (post_process h nt ss) 0%N) <> wrap64 (full_weight k ss).
+(* normalized samples: every stack has a frame, the values are untouched *)
+Lemma normalize_nonempty na ss s : In s (normalize na ss) -> s_stack s <> [].
 Proof.
-  exists city16, 1%nat, [ {| s_stack := []; s_values := [1] |} ], 0%nat.
-  split; [apply Nat.lt_0_1|]. split; [intros p f d p' f' d' []|]. vm_compute. discriminate.
+  unfold normalize. intros H. apply in_map_iff in H. destruct H as (s0 & <- & _). cbn [s_stack].
+  unfold eff_stack. destruct (s_stack s0); discriminate.
 Qed.
 
-Lemma root_sum_partial_proof (h : N -> N -> N) (nt : nat) (ss : list sample) (k : nat) :
-  (k < nt)%nat -> parent_determined h (triples h ss) ->
-  (forall s, In s ss -> s_stack s <> []) ->
-  wrap64 (child_tot k (post_process h nt ss) 0%N) = wrap64 (full_weight k ss).
+Lemma full_weight_normalize k na ss : full_weight k (normalize na ss) = full_weight k ss.
+Proof. unfold full_weight, normalize. rewrite map_map. reflexivity. Qed.
+
+Lemma weight_normalize k na ss : weight k (normalize na ss) = full_weight k ss.
+Proof. rewrite (weight_full k _ (normalize_nonempty na ss)). apply full_weight_normalize. Qed.
+
+(* the stored tree of a profile (samples without locations kept as one n/a frame): everything above, with the
+   root sum against ALL samples *)
+Theorem stored_tree_conserves h na nt ss k :
+  (k < nt)%nat -> parent_determined h (triples h (normalize na ss)) ->
+  let t := stored_tree h na nt ss in
+  NoDup (map n_id t) /\
+  (forall n, In n t -> n_id n <> 0%N /\ length (n_vals n) = nt) /\
+  (forall n, In n t -> snd (val_at k n) = wrap64 (fst (val_at k n) + child_tot k t (n_id n))) /\
+  wrap64 (child_tot k t 0%N) = wrap64 (full_weight k ss).
 Proof.
-  intros Hk Hinj Hne. rewrite <- (weight_full k ss Hne).
-  exact (proj2 (proj2 (proj2 (post_process_conserves h nt ss k Hk Hinj)))).
+  intros Hk Hinj. unfold stored_tree. rewrite <- (weight_normalize k na ss).
+  exact (post_process_conserves h nt (normalize na ss) k Hk Hinj).
 Qed.
 
 (* balance of the stored rows in the additive form used for merging (no node-by-node reading) *)
@@ -695,4 +703,59 @@ Lemma push_with_retry_blocks {A} (fails : nat) (pd : A) :
 Proof.
   induction fails as [|f [IH1 IH2]]; cbn; [split; [reflexivity|repeat constructor]|].
   split; [f_equal; exact IH1|constructor; [reflexivity|exact IH2]].
+Qed.
+
+(* ------------------------------------------------------------------ non-negative samples give non-negative, exact stored values *)
+Lemma cnt_bounds x l : 0 <= cnt x l <= Z.of_nat (length l).
+Proof.
+  induction l as [|y l IH]; [unfold cnt; cbn; lia|]. rewrite cnt_cons. cbn [length].
+  destruct (N.eqb y x); lia.
+Qed.
+
+Lemma leaf_cnt_le_cnt x l : 0 <= leaf_cnt x l <= cnt x l.
+Proof.
+  induction l as [|y l IH]; [unfold leaf_cnt, cnt; cbn; lia|].
+  rewrite cnt_cons. destruct l as [|z l'].
+  - unfold leaf_cnt, cnt. cbn. destruct (N.eqb y x); lia.
+  - assert (E : leaf_cnt x (y :: z :: l') = leaf_cnt x (z :: l')) by reflexivity.
+    rewrite E. destruct (N.eqb y x); lia.
+Qed.
+
+Lemma sample_ids_length h s : length (sample_ids h s) = length (s_stack s).
+Proof.
+  unfold sample_ids, walk_ids. rewrite map_length, <- (rev_length (s_stack s)).
+  generalize (rev (s_stack s)) 0%N 1%N. induction l as [|f l IH]; intros p d; [reflexivity|].
+  cbn [walk_triples length]. rewrite IH. reflexivity.
+Qed.
+
+Lemma sum_le_pointwise {A} (f g : A -> Z) l : (forall a, In a l -> 0 <= f a <= g a) ->
+  0 <= sumZ (map f l) <= sumZ (map g l).
+Proof.
+  induction l as [|a l IH]; intros H; [cbn; lia|]. cbn [map sumZ fold_right].
+  fold (sumZ (map f l)). fold (sumZ (map g l)).
+  specialize (IH (fun x Hx => H x (or_intror Hx))). specialize (H a (or_introl eq_refl)). lia.
+Qed.
+
+(* no sample value negative, and the values times the stack depths fit int64: every stored self and total is
+   non-negative, self <= total, and both are the exact (unwrapped) sums *)
+Theorem stored_values_nonneg h nt ss k n : (k < nt)%nat ->
+  (forall s, In s ss -> 0 <= nth k (s_values s) 0) ->
+  sumZ (map (fun s => nth k (s_values s) 0 * Z.of_nat (length (s_stack s))) ss) < two63 ->
+  In n (post_process h nt ss) ->
+  0 <= fst (val_at k n) <= snd (val_at k n) /\
+  snd (val_at k n) = sumZ (map (fun s => nth k (s_values s) 0 * cnt (n_id n) (sample_ids h s)) ss) /\
+  fst (val_at k n) = sumZ (map (fun s => nth k (s_values s) 0 * leaf_cnt (n_id n) (sample_ids h s)) ss).
+Proof.
+  intros Hk Hnn Hlt Hn. destruct (stored_node_meaning h nt ss k n Hk Hn) as [Ht Hs].
+  set (T := sumZ (map (fun s => nth k (s_values s) 0 * cnt (n_id n) (sample_ids h s)) ss)) in *.
+  set (S := sumZ (map (fun s => nth k (s_values s) 0 * leaf_cnt (n_id n) (sample_ids h s)) ss)) in *.
+  assert (H1 : 0 <= S <= T).
+  { apply sum_le_pointwise. intros s Hs'. specialize (Hnn s Hs').
+    pose proof (leaf_cnt_le_cnt (n_id n) (sample_ids h s)). nia. }
+  assert (H2 : 0 <= T <= sumZ (map (fun s => nth k (s_values s) 0 * Z.of_nat (length (s_stack s))) ss)).
+  { apply sum_le_pointwise. intros s Hs'. specialize (Hnn s Hs').
+    pose proof (cnt_bounds (n_id n) (sample_ids h s)) as Hc. rewrite sample_ids_length in Hc. nia. }
+  rewrite wrap64_small in Ht by (unfold two63 in *; lia).
+  rewrite wrap64_small in Hs by (unfold two63 in *; lia).
+  rewrite Ht, Hs. split; [lia|split; reflexivity].
 Qed.
